@@ -9,32 +9,33 @@ package server
 // ---------------------------------------------------------------------------------------
 
 //@ func malformedBodyError
-//@   property C09
+//@   property C09 C13
 //@   ensures !isnil(result)
 //@   ensures deref(result).StatusCode == 400 && deref(result).Code == "malformed_body" && deref(result).Message == errs.message(err)
 
 //@ func provingError
-//@   property C09
+//@   property C09 C13
 //@   ensures !isnil(result)
 //@   ensures deref(result).StatusCode == 400 && deref(result).Code == "proving_error" && deref(result).Message == errs.message(err)
 
 //@ func unexpectedError
-//@   property C09
+//@   property C09 C13
 //@   ensures !isnil(result)
 //@   ensures deref(result).StatusCode == 500 && deref(result).Code == "unexpected_error" && deref(result).Message == errs.message(err)
 
 //@ func (*Error) MarshalJSON
-//@   property C09
+//@   property C09 C13
 //@   ensures result1 == nil ==> result0 == json.errDoc(error.Code, error.Message)
 
 //@ func (*Error) send
-//@   property C09
+//@   property C09 C13
 //@   requires w.headerWrites == 0 && w.bodyWrites == 0
 //@   modifies w
 //@   ensures w.headerWrites == 1 && w.bodyWrites == 1 && w.status == error.StatusCode
 
 //@ func (proveHandler) ServeHTTP
 //@   property C09 C13
+//@   unreachable logging.SetJSONOutput
 //@   requires handler.mode == "insertion" || handler.mode == "deletion"
 //@   requires w.headerWrites == 0 && w.bodyWrites == 0
 //@   requires !isnil(handler.provingSystem)
